@@ -614,6 +614,16 @@ pub fn run_hist<'p>(
                 }
             }
         }
+        "c14" => {
+            // the history is `<probe with predictor 0>,obs,<same probe with predictor 1>,obs`
+            let obs_out: Vec<&String> = out.iter().filter(|o| o.contains(';')).collect();
+            if obs_out.len() == 2 && obs_out[0] != obs_out[1] {
+                fails.push(("C14".into(), format!("the deserialised predictor observes {} but the original observes {}", obs_out[1], obs_out[0])));
+            }
+            if out.iter().any(|o| o == "panic") {
+                fails.push(("C14".into(), "a prediction with the original or the deserialised predictor panicked".into()));
+            }
+        }
         "c02" => oracle_c02(&s, fails),
         "c03rt" => oracle_c03rt(&s, fails),
         "c03idem" => {
